@@ -137,10 +137,17 @@ class _SpanMixin(SpanProcessor):
 _KINDS = {'res': _ResMixin, 'dec': _DecMixin, 'log': _LogMixin, 'met': _MetMixin, 'span': _SpanMixin}
 
 
-def make(name, kinds, order=0, attrs=None, fail_ctor=False):
-    """Create (or replace) an importable plugin class vf.plugins.<name>."""
+def make(name, kinds, order=0, attrs=None, fail_ctor=False, falsy=None):
+    """Create (or replace) an importable plugin class vf.plugins.<name>.
+
+    falsy: 'len' / 'bool' make the instances falsy (e.g. a registry-like plugin that is empty so far)."""
     bases = tuple([_Rec] + [_KINDS[k] for k in kinds])
-    cls = type(name, bases, {'ORDER': order, 'ATTRS': attrs, 'FAIL_CTOR': fail_ctor, '__module__': __name__})
+    ns = {'ORDER': order, 'ATTRS': attrs, 'FAIL_CTOR': fail_ctor, '__module__': __name__}
+    if falsy == 'len':
+        ns['__len__'] = lambda self: 0
+    elif falsy == 'bool':
+        ns['__bool__'] = lambda self: False
+    cls = type(name, bases, ns)
     setattr(sys.modules[__name__], name, cls)
     return cls
 
